@@ -1,0 +1,52 @@
+//go:build verif
+
+package cloudprovider
+
+// Fourth hook file for the C12 correspondence harness (/verif): exact access to the holders' stamps.
+// The harness keeps every stamp in the wall-clock domain (so that anything the code compares with
+// time.Now() stays meaningful) at a known offset from its virtual clock; it needs to read stamps
+// without going through UnixNano (an expiry 292 years ahead does not fit) and to replace the stamp
+// a step has just written by the exact value "that step's clock reading + period".
+// Add-only; compiled only with -tags verif.
+
+import (
+	"sort"
+	"time"
+
+	"github.com/atlassian/gostatsd"
+)
+
+// VerifExactStamp is the time state of one cache entry.
+type VerifExactStamp struct {
+	IP      gostatsd.Source
+	Expires time.Time
+	Access  int64 // UnixNano
+}
+
+// VerifExactStamps returns the stamps of all holders, sorted by IP.
+func (ccp *CachedCloudProvider) VerifExactStamps() []VerifExactStamp {
+	ccp.rw.RLock()
+	defer ccp.rw.RUnlock()
+	out := make([]VerifExactStamp, 0, len(ccp.cache))
+	for ip, h := range ccp.cache {
+		out = append(out, VerifExactStamp{IP: ip, Expires: h.expires, Access: h.lastAccess()})
+	}
+	sort.Slice(out, func(i, j int) bool { return out[i].IP < out[j].IP })
+	return out
+}
+
+// VerifSetStamps overwrites the given stamps of ip's holder (nil = leave alone).
+func (ccp *CachedCloudProvider) VerifSetStamps(ip gostatsd.Source, expires *time.Time, access *int64) {
+	ccp.rw.Lock()
+	defer ccp.rw.Unlock()
+	h := ccp.cache[ip]
+	if h == nil {
+		return
+	}
+	if expires != nil {
+		h.expires = *expires
+	}
+	if access != nil {
+		h.lastAccessNano = *access
+	}
+}
